@@ -104,7 +104,7 @@ func verifHarness_C19_burst_two_submitters_panic_T() {
 }
 
 func verifHarness_C19_burst_bound4_T() {
-	verifC19Burst(4, 1, 5, 1, true, 3)
+	verifC19Burst(4, 1, 5, 1, true, 2)
 	verifAssert(false, "witness")
 }
 
